@@ -549,8 +549,9 @@ func Exec(p *Program, io *StageIO) (*StageResult, error) {
 				io.WriteFile(io.TempPath+"/work.tmp", FileContent(io.TempPath+"/work.tmp", 29))
 			}
 		}
-	case "SPLITW":
-		// split stage writing files in every phase
+	case "SPLITW", "SPLITN":
+		// split stage writing files in every phase (SPLITN: its chunks
+		// write nothing but temporary files)
 		n := argOf(io, "n").Int()
 		if n >= 10 {
 			n = n%10 + 1
@@ -580,7 +581,9 @@ func Exec(p *Program, io *StageIO) (*StageResult, error) {
 				outs[o.Name] = filewValue(p, io, o.T, n, io.FilesPath, o.Name, &pad)
 			}
 			if io.WriteFile != nil && io.FilesPath != "" {
-				io.WriteFile(io.FilesPath+"/chunk_scratch.dat", FileContent(io.FilesPath+"/chunk_scratch.dat", 7))
+				if st.Fn != "SPLITN" {
+					io.WriteFile(io.FilesPath+"/chunk_scratch.dat", FileContent(io.FilesPath+"/chunk_scratch.dat", 7))
+				}
 				if io.TempPath != "" {
 					io.WriteFile(io.TempPath+"/chunk.tmp", FileContent(io.TempPath+"/chunk.tmp", 9))
 				}
